@@ -2036,7 +2036,7 @@ class Stream(AbstractStream):
     @property
     def sle(self) -> eq.SLE:
         """An object that can perform solid-liquid equilibrium on the stream."""
-        if self.phase not in ('l', 's'): self.phase = 'l'
+        if self.phase not in ('l', 's', 'L', 'S'): self.phase = 'l'
         self.phases = ('s', 'l')
         return self.sle
 
